@@ -7,6 +7,11 @@ R-HTKIND   elf_helpers::find_hash_table_section_index returns a kind *and* two s
            have (from the sh_type comparisons on the path), a tag for every value derived from the current
            section (tag = that set), flags set under such a test, and at each `return KIND` the tags of the
            reaching definitions of each out-parameter against the tags of the flags known true there.
+R-CHAINEXIT in the two hash-table lookups, the walk of a chain is ended - or a candidate skipped - only by conditions about
+           the chain itself (index bounds, terminator, stop bit), a libelf failure, the hash value or the name; no `break`,
+           `continue` or `return` inside the walk is guarded by another field of the candidate symbol (st_shndx, st_info,
+           st_other, st_value, st_size), directly or through a helper the symbol is handed to: a symbol that the linear
+           symbol table walk would find must be found through the hash tables too.
 R-SIBLOOKUP the three lookups (SysV hash, GNU hash, linear symbol table) build the elf_symbol they return
            from the same fields of the ELF symbol: the argument lists of their elf_symbol::create calls agree
            after renaming the symbol variable (one sibling reading another field reports different symbols
@@ -262,11 +267,12 @@ def check_siblookup(ctx, P):
 def run(ctx):
     ctx.clause = ("the hash section indexes handed out belong to the kind of table announced (whatever the order of the "
                   "sections), and the SysV / GNU / linear lookups build the symbol they return from the same fields")
-    ctx.rules = ["R-HTKIND", "R-SIBLOOKUP", "R-NAMECMP"]
+    ctx.rules = ["R-HTKIND", "R-SIBLOOKUP", "R-NAMECMP", "R-CHAINEXIT"]
     P = ctx.program(UNITS)
     check_htkind(ctx, P)
     check_siblookup(ctx, P)
     check_namecmp(ctx, P)
+    check_chainexit(ctx, P)
     ctx.assume("the walks of the two hash tables themselves (hash functions, bloom filter, chains) are algorithmic and not "
                "decided; their memory safety on corrupted tables is decided under C34")
 
@@ -300,3 +306,51 @@ def check_namecmp(ctx, P):
            "no length-bounded comparison (or the lengths are compared too)" if ok else
            "`%s` compares at most as many characters as one of the names has and the lengths are never compared: a name "
            "that is a proper prefix of a symbol in the same hash bucket is reported as found" % expr_str(f, bounded[0])[:70])
+
+
+
+SYM_FIELDS = ("st_shndx", "st_info", "st_other", "st_value", "st_size")
+SYM_OK_CALLEES = ("elf_strptr", "compare_symbol_name", "gelf_getsym", "stt_to_elf_symbol_type", "stb_to_elf_symbol_binding",
+                  "stv_to_elf_symbol_visibility", "create", "get_version_for_symbol")
+
+
+def check_chainexit(ctx, P):
+    n = 0
+    for name in ("lookup_symbol_from_sysv_hash_tab", "lookup_symbol_from_gnu_hash_tab"):
+        fs = [f for f in P.all_funcs() if f.n == name and not f.dep and f.cfg() is not None]
+        if len(fs) != 1:
+            raise AnalysisBroken("anchor vanished: %s" % name)
+        f = fs[0]
+        ctx.analysed(f)
+        symvars = {x.get("d") for x in f.nodes() if x["k"] == "VarDecl" and
+                   "GElf_Sym" in ((f.unit.type((f.unit.decl(x.get("d")) or {}).get("t")) or {}).get("s") or "")}
+        loops = [x for x in f.nodes() if x["k"] in ("DoStmt", "WhileStmt", "ForStmt") and
+                 any(y["k"] == "CallExpr" and (f.decl(y) or {}).get("n") == "gelf_getsym" for y in walk(x))]
+        if not loops or not symvars:
+            raise AnalysisBroken("anchor vanished: the chain walk of %s" % name)
+
+        def depends_on_symbol(cond):
+            for y in walk(cond):
+                if y["k"] == "MemberExpr" and (f.decl(y) or {}).get("n") in SYM_FIELDS:
+                    return "field %s" % f.decl(y)["n"]
+                if y["k"] in ("CallExpr", "CXXMemberCallExpr") and (f.decl(y) or {}).get("n") not in SYM_OK_CALLEES:
+                    for a in call_args(y):
+                        if any(z["k"] == "DeclRefExpr" and z.get("d") in symvars for z in walk(a)):
+                            return "%s(.., symbol, ..)" % (f.decl(y) or {}).get("n")
+            return None
+        for loop in loops:
+            for x in walk(loop):
+                if x["k"] not in ("BreakStmt", "ContinueStmt", "ReturnStmt"):
+                    continue
+                guards = [a for a in f.ancestors(x) if a["k"] == "IfStmt" and a["c"][0] is not None and any(z is a for z in walk(loop))]
+                n += 1
+                why = None
+                for g in guards:
+                    why = why or depends_on_symbol(g["c"][0])
+                k = sum(1 for o in ctx.obligations if o["rule"] == "R-CHAINEXIT" and o["entity"].startswith(name))
+                ctx.ob("R-CHAINEXIT", "%s: early exit #%d of the chain walk does not depend on the candidate's other fields" % (name, k + 1),
+                       why is None, f.loc(x), "guarded by %s" % (" && ".join(expr_str(f, g["c"][0])[:50] for g in guards) or "nothing") if why is None else
+                       "`%s` under `%s` depends on %s: a defined symbol (e.g. an absolute one, st_shndx = SHN_ABS) ends the walk or is "
+                       "skipped, and symbols further down the chain are not found although the symbol table has them" % (
+                           x["k"].replace("Stmt", "").lower(), expr_str(f, guards[0]["c"][0])[:60] if guards else "", why))
+    ctx.floor("R-CHAINEXIT", "early exits in the chain walks", n, 4)
